@@ -230,13 +230,18 @@ def run_spectrum(inp):
     M = G.fm(inp["M"])
     ev, evec = np.linalg.eig(M.T)
     out = {"ev_re": np.real(ev).tolist(), "ev_im": np.imag(ev).tolist()}
-    # Minkowski norm of the eigenvector from_reflection will pick (np.argmin of the real parts), after normalize
-    v = np.real(evec[:, int(np.argmin(np.real(ev)))])
+    # Minkowski norm of the eigenvector from_reflection will pick (np.argmin of the real parts of the
+    # representative of non-negative trace), after normalize
+    sgn = -1.0 if np.trace(M) < 0 else 1.0
+    v = np.real(evec[:, int(np.argmin(sgn * np.real(ev)))])
     nv = float(G.mink(v, v))
     out["vnorm"] = 0.0 if abs(nv) < 1e-300 else nv / abs(nv)
     try:
         Hp = H.Hyperplane.from_reflection(H.Isometry(M.copy()))
         out["accepted"] = True
+        # the documented bare-array input is read like Isometry(array)
+        Hq = H.Hyperplane.from_reflection(M.copy())
+        out["array_normal"] = np.array(Hq.spacelike_vector, dtype=float).tolist()
         out["normal"] = np.array(Hp.spacelike_vector, dtype=float).tolist()
     except GeometryError:
         out["accepted"] = False
@@ -256,7 +261,7 @@ def judge_spectrum(inp, obs, lr):
     e = drv_err(lr)
     if e:
         return e
-    isrefl = inp["kind"] == "refl"
+    isrefl = inp["kind"] in ("refl", "neg_refl")      # R and -R are the same reflection
     if obs["accepted"] != isrefl:
         # a parabolic-times-reflection has the spectrum of a reflection; it is not generated here
         return {"expected": "accepted iff reflection", "observed": obs["accepted"], "tags": tags, "property_failure": True}
@@ -270,8 +275,13 @@ def judge_spectrum(inp, obs, lr):
         # the recovered normal is the (-1)-eigenvector chosen by argmin, and is fixed up to sign by R
         M = G.fm(inp["M"])
         v = np.array(obs["normal"])
-        if np.abs(v @ M + v).max() > 1e-8:
-            return {"expected": "normal is a (-1)-eigenvector", "observed": v.tolist(), "tags": tags, "property_failure": True}
+        sg = -1.0 if inp["kind"] == "neg_refl" else 1.0
+        if np.abs(v @ M + sg * v).max() > 1e-8:
+            return {"expected": "normal is a (-1)-eigenvector of the reflection", "observed": v.tolist(), "tags": tags, "property_failure": True}
+        w = np.array(obs["array_normal"])
+        if min(np.abs(w - v).max(), np.abs(w + v).max()) > 1e-8:
+            return {"expected": {"same wall from the bare array": v.tolist()}, "observed": w.tolist(),
+                    "tags": dict(tags, input="ndarray"), "property_failure": True}
     return None
 
 
@@ -498,11 +508,18 @@ def run_o_nonrefl(inp):
     g = np.array(inp["g"])
     L = float_std(inp["dim"], inp["kind"], inp["a"], inp["t"])
     M = np.linalg.inv(g) @ L @ g
+    normal = arr_normal = None
     try:
-        H.Hyperplane.from_reflection(H.Isometry(M.copy()))
+        normal = np.array(H.Hyperplane.from_reflection(H.Isometry(M.copy())).spacelike_vector, dtype=float).tolist()
         acc = True
     except GeometryError:
         acc = False
+    try:
+        # the documented bare-array input, read like Isometry(array)
+        arr_normal = np.array(H.Hyperplane.from_reflection(M.copy()).spacelike_vector, dtype=float).tolist()
+        acc_arr = True
+    except GeometryError:
+        acc_arr = False
     acc_g = None
     if inp["dim"] == 2:
         try:
@@ -517,16 +534,27 @@ def run_o_nonrefl(inp):
             wrongdim = "accepted"
         except GeometryError:
             wrongdim = "GeometryError"
-    return {"accepted": acc, "accepted_geodesic": acc_g, "wrongdim": wrongdim}
+    return {"accepted": acc, "accepted_array": acc_arr, "accepted_geodesic": acc_g, "wrongdim": wrongdim,
+            "normal": normal, "array_normal": arr_normal, "wall": g[1].tolist()}
 
 
 def judge_o_nonrefl(inp, obs, lr):
     tags = {"kind": inp["kind"], "dim": inp["dim"]}
     if "exc" in obs:
         return {"expected": "hyperplane or GeometryError", "observed": obs, "tags": dict(tags, exc=obs["exc"])}
-    want = inp["kind"] == "refl"
+    want = inp["kind"] in ("refl", "neg_refl")     # both projective representatives +-R of a reflection
     if obs["accepted"] != want or (obs["accepted_geodesic"] is not None and obs["accepted_geodesic"] != want):
         return {"expected": "reflections accepted, non-reflections rejected with GeometryError", "observed": obs, "tags": tags}
+    if obs["accepted_array"] != want:
+        return {"expected": "the same decision for the bare array", "observed": obs, "tags": dict(tags, input="ndarray")}
+    if want:
+        d = np.array(obs["wall"])       # the reflection is g^-1 L g with L the reflection in e1: its wall is (e1 g)^perp
+        d = d / np.linalg.norm(d)
+        for key in ("normal", "array_normal"):
+            v = np.array(obs[key])
+            v = v / np.linalg.norm(v)
+            if min(np.abs(v - d).max(), np.abs(v + d).max()) > 1e-6 * (1 + np.abs(np.array(inp["g"])).max() ** 2):
+                return {"expected": {"normal parallel to": d.tolist()}, "observed": v.tolist(), "tags": dict(tags, what=key)}
     if obs["wrongdim"] == "accepted":
         return {"expected": "Geodesic.from_reflection rejects dimension != 2", "observed": obs, "tags": dict(tags, what="dimension")}
     return None
@@ -768,6 +796,22 @@ def gen_o_subrefl(rng, n):
         cnt = int(np.prod(shape)) if shape else 1
         units = []
         for _ in range(cnt):
+            if rng.random() < 0.25:
+                # a wall through the origin of the ball (for a geodesic: antipodal endpoints)
+                nu = np.array(G.fsphere(rng, dim))
+                while True:
+                    ks = []
+                    for _ in range(dim):
+                        x = np.array(G.fsphere(rng, dim))
+                        x = x - np.dot(x, nu) * nu
+                        ks.append(x / np.linalg.norm(x))
+                    ks = np.array(ks)
+                    if dim == 2:
+                        ks[1] = -ks[0]
+                    if np.linalg.svd(np.vstack([ks, nu]), compute_uv=False)[-1] > 0.2 or dim == 2:
+                        break
+                units.append(ks.tolist())
+                continue
             while True:
                 ks = np.array([G.fsphere(rng, dim) for _ in range(dim)])
                 T = ks[1:] - ks[0]
